@@ -5,6 +5,7 @@
    Every theorem quantifies over ALL device counts D > 0, all numbers of statistics, all item
    types and all per-item functions f (the vmapped inverse-root computation is any function). *)
 From Precond Require Import Base.PyLib C13.Model C13.Proofs C13.ArrayProofs.
+From Precond Require C13.Ref C13.RefLink.
 Open Scope Z_scope.
 
 (* to_pad = -N % D lies in [0, D), makes the count a multiple of D, and is the least such number *)
@@ -125,3 +126,18 @@ Theorem c13_squeeze_axis0_safe : forall (A : Type) (xs : list (arr A)) D s,
   exists a, batch_arr xs D = Some a /\ unbatch_arr Axis0 a = xs.
 Proof. exact @axis0_safe_lemma. Qed.
 Print Assumptions c13_squeeze_axis0_safe.
+
+(* distributed_shampoo.batch as written in the source (C13.Ref: translated on every run and re-proved
+   equal, GenEq obligation; jnp.stack is the identity on the list layer) is the model's chunking for
+   every item type, every list and every device count for which Python's range() does not raise
+   (num_devices > 0, b = n / num_devices > 0); in particular it equals the model's batch whenever
+   that is defined. *)
+Theorem c13_source_batch_is_model : forall (A : Type) (xs : list A) (D : Z),
+  0 < D -> 0 < zlen xs / D -> C13.Ref.batch_src A xs D = batch_raw xs D.
+Proof. exact @C13.RefLink.batch_src_is_model. Qed.
+Print Assumptions c13_source_batch_is_model.
+
+Theorem c13_source_batch_is_model_batch : forall (A : Type) (xs : list A) (D : Z) cs,
+  0 < D -> batch xs D = Some cs -> C13.Ref.batch_src A xs D = cs.
+Proof. exact @C13.RefLink.batch_src_is_model_batch. Qed.
+Print Assumptions c13_source_batch_is_model_batch.
